@@ -341,6 +341,7 @@ Section Own.
     - apply STEP. apply CORE. apply same_core_flowset.
     - apply STEP. apply CORE. apply same_core_pause.
     - apply STEP. apply CORE. apply same_core_resume.
+    - simpl. eapply SJR_tail; eauto.
     - simpl. eapply SJR_nil; eauto.
   Qed.
 
